@@ -127,6 +127,45 @@ theorem C12_terminates_matrix {env : EnumEnv} (fuel : Nat) (Ts : List Ty) (rows 
     (hwt : rowsWT env Ts rows) (h : phi env Ts rows < fuel) : (compute env fuel Ts rows).isSome = true :=
   compute_isSome fuel Ts rows hwt h
 
+/-! ### `let` / `var` / `for` destructuring: the pattern is the single arm of a match -/
+
+/-- **An accepted destructuring pattern always matches**: if `checkLet` accepts `let p = e` (`for p in …`)
+    then every well-typed value of the bound type matches `p` — so the binding code, which does not
+    compare, never runs on a value of another shape (C14 `C14_let_accepted_binds`). -/
+theorem C12_let_accepted_irrefutable {env : EnumEnv} (hinh : Inhabited' env) {fuel : Nat} {ty : Ty} {p : Pat}
+    (htyped : patTyped env p ty = true) (h : checkLet env fuel ty p = some true) :
+    ∀ v, hasTy env v ty = true → pmatch p v = true := by
+  unfold checkLet at h
+  cases hc : check env fuel ty [p] with
+  | none => simp [hc] at h
+  | some r =>
+    obtain ⟨flags, wits⟩ := r
+    simp only [hc, Option.map_some, Option.some.injEq, List.isEmpty_iff] at h
+    subst h
+    intro v hv
+    obtain ⟨q, hq, hm⟩ := C12_exhaustive_sound hinh (arms := [p]) (by simpa using htyped) hc v hv
+    simp at hq; subst hq; exact hm
+
+/-- **A rejected destructuring pattern is refutable**: some well-typed value does not match it. -/
+theorem C12_let_rejected_refutable {env : EnumEnv} (hinh : Inhabited' env) {fuel : Nat} {ty : Ty} {p : Pat}
+    (htyped : patTyped env p ty = true) (h : checkLet env fuel ty p = some false) :
+    ∃ v, hasTy env v ty = true ∧ pmatch p v = false := by
+  unfold checkLet at h
+  cases hc : check env fuel ty [p] with
+  | none => simp [hc] at h
+  | some r =>
+    obtain ⟨flags, wits⟩ := r
+    simp only [hc, Option.map_some, Option.some.injEq, List.isEmpty_eq_false_iff] at h
+    obtain ⟨v, hv, hn⟩ := C12_nonexhaustive_real hinh (arms := [p]) (by simpa using htyped) hc h
+    exact ⟨v, hv, hn p (by simp)⟩
+
+/-- the let-check always finishes -/
+theorem C12_let_terminates {env : EnumEnv} {ty : Ty} {p : Pat} (htyped : patTyped env p ty = true) :
+    ∃ b, checkLet env (fuelFor env ty [fromAst env ty p]) ty p = some b := by
+  obtain ⟨flags, wits, h⟩ := C12_terminates (env := env) (ty := ty) (arms := [p]) (by simpa using htyped)
+  have h' : check env (fuelFor env ty [fromAst env ty p]) ty [p] = some (flags, wits) := by simpa using h
+  exact ⟨wits.isEmpty, by simp [checkLet, h']⟩
+
 /-! Non-vacuity: a concrete environment (one enum: `A(bool) | B`), a match on `(En0, bool)`. -/
 
 def exEnv : EnumEnv := fun id => if id = 0 then [[.bool], []] else [[]]
@@ -178,5 +217,9 @@ example : ∀ p ∈ exArms, patTyped exEnv p exTy = true := by decide +kernel
 /-- non-vacuity of `C12_exhaustive_sound`: with a fourth arm the match is accepted -/
 example : (check exEnv 20 exTy (exArms ++ [.tuple [.wild, .bool false]])).map (fun r => r.2.length) = some 0 := by
   decide +kernel
+
+/-- non-vacuity of the let theorems: `(V1, x)` is rejected, `(_, x)` accepted over `(En0, bool)` -/
+example : checkLet exEnv 20 exTy (.tuple [.variant0 0 1, .bind 0]) = some false ∧
+    checkLet exEnv 20 exTy (.tuple [.wild, .bind 0]) = some true := by decide +kernel
 
 end Abra.PatMatrix
